@@ -16,8 +16,10 @@
      Vec<T>         extend                  absent when nothing was appended, otherwise VBody of the
                                             body that encodes the elements (two extends = the body
                                             with both counts added and both element lists appended)
-     Option<Vec<>>  insert_if_empty         VSrcs: the attributes whose rows the table holds
-                    (line_numbers, local_variables)   (an attribute without rows leaves no row)
+     Option<Vec<>>  insert_if_empty         VRows: the rows the table holds, in the order they were collected, each
+                    (line_numbers, local_variables)   tagged with the attribute it came from (for `Lv`: which of
+                                            descriptor / signature is Some — [at_lv_kinds]); an attribute without
+                                            rows leaves no row, so the tree does not remember it
      Vec<Attribute> push                    it_unknown (name, bytes) in push order
      Option<Code>, Vec<RecordComponent>, Vec<Field>, Vec<Method>: nested items
 
@@ -62,7 +64,13 @@ Fixpoint mapi_from {A B} (f : nat -> A -> B) (k : nat) (l : list A) : list B :=
 Definition is_nil {A} (l : list A) : bool := match l with [] => true | _ => false end.
 
 (* ---------- the tree ---------- *)
-Inductive sval := VBody (b : bytes) | VSrcs (l : list str).
+Inductive sval := VBody (b : bytes) | VRows (l : list (str * row)).
+
+(* the rows a table event hands over, each tagged with the attribute it came from *)
+Definition flat_rows (srcs : list (str * list row)) : list (str * row) :=
+  flat_map (fun x => map (pair (fst x)) (snd x)) srcs.
+(* a row list as an event: accept() has the rows, not the attributes they were grouped in *)
+Definition one_each (l : list (str * row)) : list (str * list row) := map (fun r => (fst r, [snd r])) l.
 
 (* the attribute-level content of one class / field / method / Code / record component;
    K = the type of the nested items (Code of a method, record components of a class) *)
@@ -70,7 +78,8 @@ Record titem (K : Type) := mkTI {
   it_flags : option (bool * bool);            (* has_deprecated_attribute, has_synthetic_attribute; None = not visited yet *)
   it_slots : list (str * sval);               (* filled fields, by tree field name *)
   it_unknown : list (str * bytes);            (* attributes: Vec<Attribute> *)
-  it_code : option (N * N * list str * K);    (* code: max_stack, max_locals, the attributes that supply frames, the Code titem *)
+  it_code : option (N * N * list str * list row * K);  (* code: max_stack, max_locals, the attributes that supply frames,
+                                                 exception_table (parsed rows), the Code titem *)
   it_rcs : list (N * N * K);                  (* record_components: name, descriptor, the component's titem *)
 }.
 Arguments mkTI {K}.
@@ -112,7 +121,7 @@ Definition fill {K} (strict : bool) (row : brow) (b : bytes) (st : titem K) : re
       else match assoc f (it_slots st) with
            | None => Ok (set_slot f (VBody b) st)
            | Some (VBody a) => if strict then Err else Ok (set_slot f (VBody (merge a b)) st)
-           | Some (VSrcs _) => Err
+           | Some (VRows _) => Err
            end
   | MPush => Err
   end.
@@ -163,20 +172,20 @@ Definition build_step {K} (strict : bool) (ct : ctx_table) (ac : accept_ctx) (nb
         | None => Err
         | Some row =>
           if negb (forallb (fun x => stores_into ct slot (fst x)) srcs) then Err
-          else if strict && (is_nil srcs || negb (forallb snd srcs) && replayed_by_locals ac (b_field row)) then Err
+          else if strict && (is_nil srcs || existsb (fun x => is_nil (snd x)) srcs && replayed_by_locals ac (b_field row)) then Err
           else match b_mode row, assoc (b_field row) (it_slots st) with
-               | MOnce, None => Ok (set_slot (b_field row) (VSrcs (map fst (filter snd srcs))) st)
+               | MOnce, None => Ok (set_slot (b_field row) (VRows (flat_rows srcs)) st)
                | _, _ => Err
                end
         end
       end
-  | ECode attr ms ml fs es =>
+  | ECode attr ms ml fs xr es =>
       match act_full ct attr, row_of ac attr with
       | Some (ACode _), Some row =>
           match b_mode row, it_code st with
           | MOnce, None =>
               match nb_code nb fs es with
-              | Ok k => Ok (mkTI (it_flags st) (it_slots st) (it_unknown st) (Some (ms, ml, fs, k)) (it_rcs st))
+              | Ok k => Ok (mkTI (it_flags st) (it_slots st) (it_unknown st) (Some (ms, ml, fs, xr, k)) (it_rcs st))
               | Err => Err
               end
           | _, _ => Err
@@ -266,7 +275,7 @@ Definition build (strict : bool) (T : reader_tables) (AT : accept_tables) (t : o
 
 (* ---------- accept() ---------- *)
 Record naccept (K : Type) := mkNA {
-  na_code : str -> N -> N -> list str -> K -> list ev;   (* attribute name of the visit, max_stack, max_locals, frames, the Code titem *)
+  na_code : str -> N -> N -> list str -> list row -> K -> list ev;   (* attribute name of the visit, max_stack, max_locals, frames, exception table, the Code titem *)
   na_rc : str -> nat -> N -> N -> K -> ev;
 }.
 Arguments mkNA {K}.
@@ -280,8 +289,6 @@ Definition raw_of (ct : ctx_table) (name : str) : bool :=
 Definition kind_flag (AT : accept_tables) (kinds : list (str * str)) (name : str) : option str :=
   match assoc name (at_lv_kinds AT) with Some k => assoc k kinds | None => None end.
 
-Definition with_rows (l : list str) : list (str * bool) := map (fun n => (n, true)) l.
-
 Definition run_step {K} (ct : ctx_table) (ac : accept_ctx) (AT : accept_tables) (na : naccept K)
     (m : mask) (st : titem K) (s : astep) : list ev :=
   match s with
@@ -291,8 +298,8 @@ Definition run_step {K} (ct : ctx_table) (ac : accept_ctx) (AT : accept_tables) 
         match assoc f (it_slots st) with
         | Some (VBody b) =>
             match rassoc V (ac_visits ac) with Some name => [EAttr name (raw_of ct name) b] | None => [] end
-        | Some (VSrcs l) =>
-            match rassoc V (ac_deferred ac) with Some slot => [EDeferred slot (with_rows l)] | None => [] end
+        | Some (VRows l) =>
+            match rassoc V (ac_deferred ac) with Some slot => [EDeferred slot (one_each l)] | None => [] end
         | None => []
         end
       else []
@@ -301,16 +308,17 @@ Definition run_step {K} (ct : ctx_table) (ac : accept_ctx) (AT : accept_tables) 
   | SLocals flags f V kinds =>
       if existsb (interested m) flags then
         match assoc f (it_slots st), rassoc V (ac_deferred ac) with
-        | Some (VSrcs l), Some slot =>
-            let kept := filter (fun n => match kind_flag AT kinds n with Some g => interested m g | None => false end) l in
-            if is_nil l || negb (is_nil kept) then [EDeferred slot (with_rows kept)] else []
+        | Some (VRows l), Some slot =>
+            (* `.filter(|lv| (lv.k1.is_some() && interests.g1) || (lv.k2.is_some() && interests.g2))`: row by row, order kept *)
+            let kept := filter (fun r => match kind_flag AT kinds (fst r) with Some g => interested m g | None => false end) l in
+            if is_nil l || negb (is_nil kept) then [EDeferred slot (one_each kept)] else []
         | _, _ => []
         end
       else []
   | SCode flag _ V =>
       if interested m flag then
         match it_code st, rassoc V (ac_visits ac) with
-        | Some (ms, ml, fs, k), Some attr => na_code na attr ms ml fs k
+        | Some (ms, ml, fs, xr, k), Some attr => na_code na attr ms ml fs xr k
         | _, _ => []
         end
       else []
@@ -327,7 +335,7 @@ Definition run_step {K} (ct : ctx_table) (ac : accept_ctx) (AT : accept_tables) 
 Definition accept_item {K} (ct : ctx_table) (ac : accept_ctx) (AT : accept_tables) (na : naccept K) (m : mask) (st : titem K) : list ev :=
   flat_map (run_step ct ac AT na m st) (ac_steps ac).
 
-Definition na0 : naccept unit := mkNA (fun _ _ _ _ _ => []) (fun _ _ _ _ _ => EFlags false false).
+Definition na0 : naccept unit := mkNA (fun _ _ _ _ _ _ => []) (fun _ _ _ _ _ => EFlags false false).
 
 (* the flag of `let frame = if interests.x { instruction.frame } else { None }` *)
 Definition frames_flag (AT : accept_tables) : str :=
@@ -336,10 +344,14 @@ Definition frames_flag (AT : accept_tables) : str :=
   | [] => []
   end.
 
+(* `code_visitor.visit_exception_table(self.exception_table)?;` is a statement of Code::accept (unconditional) *)
+Definition exc_replayed (AT : accept_tables) : bool :=
+  existsb (fun s => match s with SExc => true | _ => false end) (ac_steps (at_code AT)).
+
 (* Code::accept: `if let Some(mut code_visitor) = visitor.visit_code()? { … } Ok(visitor)` *)
-Definition accept_code (T : reader_tables) (AT : accept_tables) (kc : option mask) (attr : str) (ms ml : N) (fs : list str) (k : titem unit) : list ev :=
+Definition accept_code (T : reader_tables) (AT : accept_tables) (kc : option mask) (attr : str) (ms ml : N) (fs : list str) (xr : list row) (k : titem unit) : list ev :=
   [match kc with
-   | Some cm => ECode attr ms ml (if interested cm (frames_flag AT) then fs else [])
+   | Some cm => ECode attr ms ml (if interested cm (frames_flag AT) then fs else []) (if exc_replayed AT then xr else [])
                       (accept_item (rt_code T) (at_code AT) AT na0 cm k)
    | None => ECodeDeclined attr
    end].
